@@ -233,6 +233,11 @@ func (m *BaseUndoLogManager) FlushUndoLog(tranCtx *types.TransactionContext, con
 	if err != nil {
 		return err
 	}
+	// the context names the compress type the rollback path will decompress with
+	rollbackInfo, err = compressor.CompressorType(parseContext[compressorTypeKey]).GetCompressor().Compress(rollbackInfo)
+	if err != nil {
+		return err
+	}
 
 	return m.InsertUndoLog(undo.UndologRecord{
 		BranchID:     tranCtx.BranchID,
